@@ -95,3 +95,70 @@ class remove_cand_str_profile:
     def hint_return(removed, ballots, scrubbed_ballots, k):
         return (wrank_keep_positive(scrubbed_ballots, len(scrubbed_ballots), k) and rc_prefix_len(ballots, len(ballots), frozenset(removed))
                 and rc_prefix_nonneg(ballots, len(ballots), frozenset(removed)))
+
+
+@contract("utils.py", "remove_cand", props=("C12", "C03"), when=("Seq", "Seq"), unfold=4)
+class remove_cand_list_tuple:
+    """remove_cand(list of candidates, tuple of ballots) -- the form the STV elect steps and SequentialRCV use: for every ranking k
+    the result carries exactly the weight of the input ballots whose ranking becomes k when the removed candidates are taken out
+    (positions keep their order and grouping, emptied positions disappear) -- each written ballot is rc_ballot(input); ballots left
+    without ranking and scores become zero-weight ballots, kept only with leave_zero_weight_ballots.  Weights are non-negative."""
+    params = dict(removed=Seq(Str, "list"), profile_or_ballots=Seq(Ballot), condense=Bool, leave_zero_weight_ballots=Bool)
+    returns = Seq(Ballot)
+    forall = dict(k=Seq(CSet))
+    locals = dict(scrubbed_ballots=Seq(Ballot, "list"), new_ranking=Seq(CSet, "list"), new_scores=Dict(Real), clean_profile=Opt(Profile))
+
+    def requires(removed, profile_or_ballots, condense, leave_zero_weight_ballots):
+        return all_nonneg(profile_or_ballots, len(profile_or_ballots))
+
+    def ensures(removed, profile_or_ballots, condense, leave_zero_weight_ballots, result, k):
+        return (wrank(result, len(result), k)
+                == wrank(rc_prefix(profile_or_ballots, len(profile_or_ballots), frozenset(removed)), len(profile_or_ballots), k))
+
+    def invariant_0(removed, ballots, scrubbed_ballots, _k):
+        return len(scrubbed_ballots) == len(ballots) and scrubbed_ballots[:_k] == list(rc_prefix(ballots, _k, frozenset(removed)))
+
+    def invariant_1(removed, ballot, new_ranking, _k):
+        return new_ranking == list(scrubR(ballot.ranking, _k, frozenset(removed)))
+
+    def comp_4(scrubbed_ballots):
+        return keep_positive(scrubbed_ballots, len(scrubbed_ballots))
+
+    def hint_return(removed, ballots, scrubbed_ballots, k):
+        return (wrank_keep_positive(scrubbed_ballots, len(scrubbed_ballots), k) and rc_prefix_len(ballots, len(ballots), frozenset(removed))
+                and rc_prefix_nonneg(ballots, len(ballots), frozenset(removed)))
+
+
+
+@contract("utils.py", "remove_cand", props=("C12", "C03"), when=("Str", "Seq"), unfold=4)
+class remove_cand_str_tuple:
+    """remove_cand(single candidate name, tuple of ballots) -- the form the STV elect steps and SequentialRCV use: for every ranking k
+    the result carries exactly the weight of the input ballots whose ranking becomes k when the removed candidates are taken out
+    (positions keep their order and grouping, emptied positions disappear) -- each written ballot is rc_ballot(input); ballots left
+    without ranking and scores become zero-weight ballots, kept only with leave_zero_weight_ballots.  Weights are non-negative."""
+    params = dict(removed=Str, profile_or_ballots=Seq(Ballot), condense=Bool, leave_zero_weight_ballots=Bool)
+    returns = Seq(Ballot)
+    forall = dict(k=Seq(CSet))
+    locals = dict(scrubbed_ballots=Seq(Ballot, "list"), new_ranking=Seq(CSet, "list"), new_scores=Dict(Real), clean_profile=Opt(Profile))
+
+    def requires(removed, profile_or_ballots, condense, leave_zero_weight_ballots):
+        return all_nonneg(profile_or_ballots, len(profile_or_ballots))
+
+    def ensures(removed, profile_or_ballots, condense, leave_zero_weight_ballots, result, k):
+        return (wrank(result, len(result), k)
+                == wrank(rc_prefix(profile_or_ballots, len(profile_or_ballots), frozenset([removed])), len(profile_or_ballots), k))
+
+    def invariant_0(removed, ballots, scrubbed_ballots, _k):
+        return len(scrubbed_ballots) == len(ballots) and scrubbed_ballots[:_k] == list(rc_prefix(ballots, _k, frozenset(removed)))
+
+    def invariant_1(removed, ballot, new_ranking, _k):
+        return new_ranking == list(scrubR(ballot.ranking, _k, frozenset(removed)))
+
+    def comp_4(scrubbed_ballots):
+        return keep_positive(scrubbed_ballots, len(scrubbed_ballots))
+
+    def hint_return(removed, ballots, scrubbed_ballots, k):
+        return (wrank_keep_positive(scrubbed_ballots, len(scrubbed_ballots), k) and rc_prefix_len(ballots, len(ballots), frozenset(removed))
+                and rc_prefix_nonneg(ballots, len(ballots), frozenset(removed)))
+
+
